@@ -1,6 +1,7 @@
 import Lean.Data.Json
 import MontePyVerif.Spec.Geometry
 import MontePyVerif.Model.Geometry
+import MontePyVerif.Lemmas.GeometryReady
 /-! Line-protocol driver for the geometry model and the geometry Spec (unit U-geometry).
     One JSON case per input line, one JSON answer per output line.
     Text is exchanged over the alphabet `0-9 + - # ( ) : space newline & $` (`$` = start of a comment). -/
@@ -106,7 +107,9 @@ def runModel (j : Json) : Except String Json := do
       cg := cg'
       h := cg'.hs
       c := c'
-      steps := steps.push (Json.mkObj [("str", h.str), ("text", textTo txt), ("toks", toksJson txt)])
+      -- the hypothesis of theorem C02_cell_write_meaning, evaluated on the model's state
+      let rdy := MontePyVerif.C02.ready cg.hs && MontePyVerif.C02.chainOK cg.chain cg.hs.fmt
+      steps := steps.push (Json.mkObj [("str", h.str), ("text", textTo txt), ("toks", toksJson txt), ("ready", rdy)])
     else
       if k == "not" then h := h.invert
       else
